@@ -188,13 +188,16 @@ Example laws_nonvacuous :
       /\ range_verdict ZOps 2 Vs [2; 3; 5; 7] [11; 13; 17; 19] 23 29
            (mkProof ZOps (pA _ p) (pS _ p) (pT1 _ p) (pT2 _ p) (ptx _ p + 1) (ptxt _ p) (pet _ p) (plr _ p) (pa _ p) (pb _ p))
            (-1) (-1) 10 3 4 [(-1, -1); (1, 1)] = VFirst)
-  /\ (exists p, mem_prove ZOps [5; 6; 7] 7 100 [2; 3; 5; 7] [11; 13; 17; 19] 23 29
-                  [1; 2; 3; 4] [5; 6; 7; 8] 31 37 41 43 (-1) (-1) 10 3 4 [(-1, -1); (1, 1)] = Some p
-        /\ mem_verdict ZOps [5; 6; 7] (commit ZOps 23 29 7 100) [2; 3; 5; 7] [11; 13; 17; 19] 23 29 p (-1) (-1) 10 3 4 [(-1, -1); (1, 1)] = VOk).
+  /\ match mem_prove ZOps [5; 6; 7] 7 100 [2; 3; 5; 7] [11; 13; 17; 19] 23 29
+                  [1; 2; 3; 4] [5; 6; 7; 8] 31 37 41 43 (-1) (-1) 10 3 4 [(-1, -1); (1, 1)] with
+     | Some p => mem_verdict ZOps [5; 6; 7] (commit ZOps 23 29 7 100) [2; 3; 5; 7] [11; 13; 17; 19] 23 29 p
+                   (-1) (-1) 10 3 4 [(-1, -1); (1, 1)] = VOk
+     | None => False
+     end.
 Proof.
   split; [exact ZOps_laws|]. split; [repeat constructor|]. split.
   - vm_compute. repeat split; reflexivity.
-  - eexists. vm_compute. split; reflexivity.
+  - vm_compute. reflexivity.
 Qed.
 Print Assumptions laws_nonvacuous.
 
